@@ -171,11 +171,14 @@ def abort (s : State) (t : TxnId) : State × Out :=
 
 /-! ### managed transactions -/
 
-/-- how the function given to `Updates` / `View` ends: returns nil, returns an error, panics after `k` operations -/
+/-- how the function given to `Updates` / `View` ends: returns nil, returns an error, panics after `k` operations, or
+    terminates its goroutine after `k` operations (`runtime.Goexit`, which is what `t.FailNow` does: the deferred calls
+    run, `recover()` returns nil, nothing is returned to a caller) -/
 inductive Ending where
   | ok
   | err
   | panicAt (k : Nat)
+  | goexitAt (k : Nat)
 
 /-- operations of a managed function on its transaction -/
 inductive BOp where
@@ -204,12 +207,14 @@ def runBody (s : State) (t : TxnId) : List BOp → State × List Out
 /-- the part of the body that runs before the function ends -/
 def effBody (body : List BOp) : Ending → List BOp
   | .panicAt k => body.take k
+  | .goexitAt k => body.take k
   | _ => body
 
 inductive Ret where
   | retOk
   | retErr
   | panicked
+  | goexited
   | blocked
 deriving DecidableEq, Repr
 
@@ -218,12 +223,14 @@ def finishUpdates (s : State) (t : TxnId) : Ending → State × Ret
   | .ok => let s1 := (commit s t).1; ((abort s1 t).1, .retOk)
   | .err => ((abort s t).1, .retErr)
   | .panicAt _ => ((abort s t).1, .panicked)        -- recover(); txn.Abort(); panic(p)
+  | .goexitAt _ => ((abort s t).1, .goexited)       -- recover() = nil; txn.Abort()
 
 /-- end of `View`: never commits -/
 def finishView (s : State) (t : TxnId) : Ending → State × Ret
   | .ok => ((abort s t).1, .retOk)
   | .err => ((abort s t).1, .retErr)
   | .panicAt _ => ((abort s t).1, .panicked)
+  | .goexitAt _ => ((abort s t).1, .goexited)
 
 def updates (s : State) (body : List BOp) (e : Ending) : State × List Out × Ret :=
   match begin s true with
